@@ -153,7 +153,8 @@ def run(case):
                 probs.append(dict(sig='euler16:second-decode-differs', msg='decoding the same array object a second time gives different triads'))
         elif mode == 'chunks':
             parts = [chc._unpack_euler16(codes[i::121].copy()) for i in range(121)]
-            mn = np.empty((NCODE, 3)); md = np.empty((NCODE, 3)); mj = np.empty((NCODE, 3))
+            dt_ = np.asarray(parts[0][2]).dtype
+            mn = np.empty((NCODE, 3), dtype=dt_); md = np.empty((NCODE, 3), dtype=dt_); mj = np.empty((NCODE, 3), dtype=dt_)
             for i, (a, b, c) in enumerate(parts):
                 mn[i::121], md[i::121], mj[i::121] = a, b, c
             sel = codes
